@@ -219,6 +219,22 @@ class ImplWorld(ImplExt):
         self.sub_order.append(i)
         return str(i)
 
+    def cmd_cogb(self, ts):
+        """create_or_get_observer looked up by the BASE class of the reward observers (whoever of them is subscribed first is the
+        answer); only asked while one is subscribed.  What came back is left in `last_cogb` for the oracle; the reply is "ok"."""
+        from job_shop_lib.reinforcement_learning import RewardObserver
+        self.last_cogb = None
+        if not any(isinstance(s_, RewardObserver) for s_ in self.dispatcher.subscribers):
+            return "ok"
+        try:
+            got = self.dispatcher.create_or_get_observer(RewardObserver)
+        except Exception as e:  # pylint: disable=broad-except
+            self.last_cogb = ("raised", type(e).__name__)
+            return "ok"
+        first = next(s_ for s_ in self.dispatcher.subscribers if isinstance(s_, RewardObserver))
+        self.last_cogb = ("ok", got is first, any(s_ is got for s_ in self.dispatcher.subscribers))
+        return "ok"
+
     def cmd_cog(self, ts):
         kind = ts[0]
         try:
